@@ -60,6 +60,11 @@ def wrapper_function(p, ns):
         return ns['K'].__dict__['wrapper'], w
     if p.route == 'parameter':
         return ns['wrapper_'], w
+    if p.route == 'modifiers':
+        f = w
+        while hasattr(f, 'func') and not hasattr(f, '__code__'):
+            f = f.func
+        return f, w
     return w, w
 
 
@@ -75,6 +80,8 @@ def expected_declared(p, ns):
     fn, obj = wrapper_function(p, ns)
     plain = PS.signature(obj)
     own = PS.signature(fn)
+    if p.route == 'modifiers':
+        own = plain          # the rewritten signature advertised by the modifiers object
     has_va = p.va_name is not None
     has_vk = p.vk_name is not None
     sigs = []
@@ -175,8 +182,10 @@ def model_discover(p, ns):
     merge / fallback by the extracted model.  Returns dict with the visitor
     answers and the model's final description (or None when not applicable)."""
     fn, obj = wrapper_function(p, ns)
-    tree = _util.get_ast(fn)
     out = {'visitor_model': None, 'visitor_impl': None, 'final': None}
+    if p.route == 'modifiers':
+        return out           # analysed through the hint protocol: oracle comparison only
+    tree = _util.get_ast(fn)
     if tree is None:
         return out
     req, intern = D.visit_request(tree)
